@@ -329,8 +329,9 @@ func (m *c12NetMessage) Seqno() uint64 { return 0 }
 // real channels, not to handlers whose context is done). Sent messages are
 // dropped.
 type c12Channel struct {
-	mu       sync.Mutex
-	handlers []c12Handler
+	mu           sync.Mutex
+	handlers     []c12Handler
+	unmarshalers map[string]func() net.TaggedUnmarshaler
 }
 
 type c12Handler struct {
@@ -347,8 +348,15 @@ func (c *c12Channel) Recv(ctx context.Context, fn func(net.Message)) {
 	c.handlers = append(c.handlers, c12Handler{ctx, fn})
 	c.mu.Unlock()
 }
-func (c *c12Channel) SetUnmarshaler(func() net.TaggedUnmarshaler) {}
-func (c *c12Channel) SetFilter(net.BroadcastChannelFilter) error  { return nil }
+func (c *c12Channel) SetUnmarshaler(factory func() net.TaggedUnmarshaler) {
+	c.mu.Lock()
+	defer c.mu.Unlock()
+	if c.unmarshalers == nil {
+		c.unmarshalers = map[string]func() net.TaggedUnmarshaler{}
+	}
+	c.unmarshalers[factory().Type()] = factory
+}
+func (c *c12Channel) SetFilter(net.BroadcastChannelFilter) error { return nil }
 
 func (c *c12Channel) registered() int {
 	c.mu.Lock()
@@ -388,6 +396,12 @@ type c12Receiver struct {
 	// ownSeats: all seats run by the receiving node when the step filters
 	// on all of them (coordination follower); default: the receiver's seat
 	ownSeats map[group.MemberIndex]bool
+	// register, when set, is the protocol's own registration of unmarshaler
+	// factories on a channel (RegisterUnmarshallers); ident renders the
+	// content of a kept message (wire delivery creates new objects, so kept
+	// messages are compared by content)
+	register func(net.BroadcastChannel)
+	ident    func(interface{}) string
 	// build makes the protocol message; extraOK=false when the message is
 	// built to violate a further documented condition of the step (tag says
 	// which)
@@ -517,31 +531,111 @@ func c12Texts(plan []*c12Planned) string {
 // state machine states).
 func c12Feed(t *rapid.T, st *verifkit.Stats, sc *c12Scenario, pool []*c12Operator, r *c12Receiver, caseTags map[string]bool) {
 	nMsgs := rapid.IntRange(1, 8).Draw(t, "messages")
+	// Half of the cases hand the receiver ready-made message objects. The
+	// other half delivers what the senders put on the wire: the marshaled
+	// bytes go through the unmarshaler factories the protocol registers on
+	// its channel, in bursts of back-to-back envelopes from different network
+	// keys - all envelopes of a burst are unmarshaled (and paired with their
+	// sender's key) before the first of them reaches the receiver, as it
+	// happens with the buffered handler queues of the network channels.
+	wire := r.register != nil && rapid.Bool().Draw(t, "viaWire")
+	channel := &c12Channel{}
+	if wire {
+		r.register(channel)
+		caseTags["delivery:wire-bytes-through-registered-unmarshalers"] = true
+	} else {
+		caseTags["delivery:message-objects"] = true
+	}
 	expected := map[int][]interface{}{}
-	var plan []*c12Planned
-	for i := 0; i < nMsgs; i++ {
-		p := c12Plan(t, sc, pool, r)
-		plan = append(plan, p)
-		if p.want {
-			expected[p.msg.kind] = append(expected[p.msg.kind], p.payload)
-		}
-		if err := r.receive(p.netMessage(pool)); err != nil {
-			t.Fatalf("%s: Receive returned an error: %v", r.name, err)
-		}
+	var plan, burst []*c12Planned
+	var bursts []int
+	compare := func() {
 		got := r.stored()
 		for kind := range r.kindNames {
 			if len(got[kind]) != len(expected[kind]) {
-				t.Fatalf("%s, group %s (receiver *, i inactive, d disqualified)%s: after %s the receiver keeps %d %s messages, the admission rule gives %d",
-					r.name, sc.render(pool), r.note, c12Texts(plan),
+				t.Fatalf("%s, group %s (receiver *, i inactive, d disqualified)%s wire=%v bursts=%v: after %s the receiver keeps %d %s messages, the admission rule gives %d",
+					r.name, sc.render(pool), r.note, wire, bursts, c12Texts(plan),
 					len(got[kind]), r.kindNames[kind], len(expected[kind]))
 			}
 			for j := range got[kind] {
-				if got[kind][j] != expected[kind][j] {
-					t.Fatalf("%s, group %s%s: after %s kept %s message #%d is not the admitted one",
-						r.name, sc.render(pool), r.note, c12Texts(plan), r.kindNames[kind], j)
+				same := got[kind][j] == expected[kind][j]
+				if wire {
+					same = r.ident(got[kind][j]) == r.ident(expected[kind][j])
+				}
+				if !same {
+					t.Fatalf("%s, group %s%s wire=%v bursts=%v: after %s kept %s message #%d is not the admitted one (kept %s)",
+						r.name, sc.render(pool), r.note, wire, bursts, c12Texts(plan), r.kindNames[kind], j,
+						r.identOrPointer(got[kind][j]))
 				}
 			}
 		}
 	}
+	for i := 0; i < nMsgs; i++ {
+		p := c12Plan(t, sc, pool, r)
+		plan = append(plan, p)
+		if !wire {
+			if p.want {
+				expected[p.msg.kind] = append(expected[p.msg.kind], p.payload)
+			}
+			if err := r.receive(p.netMessage(pool)); err != nil {
+				t.Fatalf("%s: Receive returned an error: %v", r.name, err)
+			}
+			compare()
+			continue
+		}
+		burst = append(burst, p)
+		if i < nMsgs-1 && rapid.IntRange(0, 2).Draw(t, "burstEnds") != 0 {
+			continue
+		}
+		bursts = append(bursts, len(burst))
+		if len(burst) > 1 {
+			caseTags["wire:burst-of-several-messages"] = true
+		}
+		// the channel takes the burst from the wire ...
+		var queued []net.Message
+		for _, q := range burst {
+			marshaler, ok := q.payload.(net.TaggedMarshaler)
+			if !ok {
+				continue // not a message of a protocol on this channel
+			}
+			bytes, err := marshaler.Marshal()
+			if err != nil {
+				t.Fatalf("%s: cannot marshal %s: %v", r.name, q.text, err)
+			}
+			factory := channel.unmarshalers[q.typ]
+			if factory == nil {
+				continue // no unmarshaler registered: dropped by the channel
+			}
+			unmarshaled := factory()
+			if err := unmarshaled.Unmarshal(bytes); err != nil {
+				if q.want {
+					t.Fatalf("%s: harness message %s does not survive the wire: %v", r.name, q.text, err)
+				}
+				continue // malformed: dropped by the channel
+			}
+			queued = append(queued, &c12NetMessage{key: pool[q.msg.op].key, payload: unmarshaled, typ: q.typ})
+			if q.want {
+				expected[q.msg.kind] = append(expected[q.msg.kind], q.payload)
+			}
+		}
+		// ... and hands it to the receiver afterwards
+		for _, m := range queued {
+			if err := r.receive(m); err != nil {
+				t.Fatalf("%s: Receive returned an error: %v", r.name, err)
+			}
+		}
+		compare()
+		burst = nil
+	}
+	if wire {
+		r.note += fmt.Sprintf(" wire-bursts=%v", bursts)
+	}
 	c12Record(st, sc, pool, r, plan, caseTags)
+}
+
+func (r *c12Receiver) identOrPointer(m interface{}) string {
+	if r.ident != nil {
+		return r.ident(m)
+	}
+	return fmt.Sprintf("%p", m)
 }
